@@ -4,9 +4,11 @@ from engine.checks import c_common, c15
 
 FUNCS = ['matrix_buffer_getbuf', 'matrix_buffer_relbuf',
          'matrix_add_generic', 'matrix_sub_generic', 'matrix_mul_generic',
-         'matrix_div_generic', 'matrix_rem_generic', 'matrix_set_size']
+         'matrix_div_generic', 'matrix_rem_generic', 'matrix_set_size',
+         'Matrix_NewFromSequence']
 KINDS = ('export-buffer', 'export-layout', 'export-count',
-         'export-typestate')
+         'export-typestate', 'constructor-postcondition',
+         'reject-exception', 'covered')
 
 
 def run(report, tier, seed):
@@ -16,7 +18,10 @@ def run(report, tier, seed):
     report.floor = 6
     report.not_decided += [
         'byte-exact value round trips through pickle, copy/deepcopy and '
-        'tofile/fromfile (go through CPython and the sequence constructor)',
+        'tofile/fromfile: what is decided is that the sequence constructor '
+        'through which __reduce__ rebuilds a matrix returns the requested '
+        'typecode and length for every sequence, also the empty one; the '
+        'element values go through convert_num/write_num (assumed)',
         'construction from foreign buffers (Matrix_NewFromPyBuffer) and the '
         'sparse getstate/reduce paths']
     report.assumptions += [
